@@ -93,8 +93,9 @@ def split_bregman_tvd(
     if x0 is not None:
         img0, d0, b0 = x0
         img_iter = skimage.img_as_float(img0)
-        d = d0
-        b = b0
+        # The split Bregman variables are updated in place - work on copies
+        d = d0.copy()
+        b = b0.copy()
     else:
         img_iter = skimage.img_as_float(img.copy())
         d = np.zeros((*img.shape, dim), dtype=img.dtype)
